@@ -159,7 +159,9 @@ def get_ast(func):
         return None
     try:
         rawsource = inspect.getsource(code)
-    except (OSError, IOError):
+    except Exception:
+        # no source, or a file that changed since it was imported and can
+        # no longer be cut into blocks (tokenize errors)
         return None
     try:
         if rawsource[:1] in ' \t':
@@ -169,8 +171,9 @@ def get_ast(func):
             func_ast = ast.parse('if 1:\n' + rawsource).body[0].body[0]
         else:
             func_ast = ast.parse(rawsource).body[0]
-    except SyntaxError:
-        # the lines holding a lambda need not form a statement
+    except (SyntaxError, IndexError):
+        # the lines holding a lambda need not form a statement; a file
+        # that changed may hold nothing at all there
         return None
     if not isinstance(func_ast, (ast.FunctionDef, ast.AsyncFunctionDef)):
         # a lambda: what comes back is the statement it is written in
